@@ -94,6 +94,9 @@ pub fn configs_c08(tier: Tier) -> Vec<Box<dyn Config>> {
         b.seeds = super::c01::seeds_for(super::width());
         v.push(Box::new(b));
     }
+    // HashTable: reserve / shrink_to / shrink_to_fit / try_reserve with the caller's hasher (capacity contract
+    // checked on every operation of its alphabet)
+    v.push(super::c06::tab(Plan::Zero, if q { 5 } else { 8 }, if q { 7 } else { 10 }, vec![], true, tier, "-capacity"));
     if sse2 {
         v.push(probe_cfg::<TKey, TVal>(Plan::Zero, if q { 13 } else { 16 }, p.clone(), tier, "capacity"));
         v.push(probe_cfg::<PKey, PVal>(Plan::Seq, if q { 5 } else { 7 }, p.clone(), tier, "capacity"));
